@@ -69,4 +69,22 @@ def percentDecode : Bytes → Option Bytes
       | _ => none
     else (percentDecode t).map (c :: ·)
 
+/-- the gRPC status a peer reads from the status trailers (grpc-go, connect-go): the
+`google.rpc.Status` of `grpc-status-details-bin` when present, otherwise `grpc-status` with
+the percent-decoded `grpc-message` and no details -/
+def readStatusTrailers (t : StatusTrailers) : Option StatusBin :=
+  match t.bin with
+  | some s => some s
+  | none => (percentDecode t.message).map (fun m => { code := t.status, message := m, details := [] })
+
+/-- "preserves its code, message and every detail (type and bytes)" for an error rendered as
+status trailers: whichever of the two carriers a peer reads, it finds the error — the code in
+`grpc-status`, the message behind the percent-encoding of `grpc-message`, and, when there
+are details, code, message (raw) and every detail in `grpc-status-details-bin`. -/
+def trailersPreserve (code : Int) (msg : Bytes) (details : List Detail) (t : StatusTrailers) : Bool :=
+  t.status == code && percentDecode t.message == some msg && t.message.all printable &&
+  (match t.bin with
+   | some s => s.code == code && s.message == msg && s.details == details
+   | none => details.isEmpty)
+
 end ConfModel.ConvertSpec
